@@ -94,6 +94,22 @@ def build(run):
                    "hartree/au": _sym(U["Hartree"]) / _sym(U["Bohr"]), "eV/angstrom": sp.Integer(1)}
             run.lemma(pref, "force", "%s: force_to_eVperA is the declared force unit (%s) in eV/Angstrom" % (calc, fu), [], None, backend="poly",
                       pairs=[(sp.srepr(_sym(d["force_to_eVperA"])), sp.srepr(tab[fu]))])
+    # conversion table: get_force_constant_conversion_factor(u, X) == SI(u) / SI(force-constant unit of X)
+    fnc = cmod.funcs["get_force_constant_conversion_factor"]
+    for calc in CALCS:
+        for u in ("eV/angstrom^2", "eV/Angstrom^2", "eV/angstrom.au", "Ry/au^2", "mRy/au^2", "hartree/au^2", "hartree/angstrom.au"):
+            ex = PyExec(cmod, None, "%s:get_force_constant_conversion_factor[%s,%s]" % (CF, u, calc), globals_=_globals())
+            st = PState()
+            st.pc.extend([z3.Real(n) > 0 for n in FUND])
+            outs = ex.call_function(st, fnc, [u, calc])
+            rets = [o for o in outs if o[1] == "return"]
+            if len(rets) != 1:
+                raise CheckerError("get_force_constant_conversion_factor(%r, %r): %s" % (u, calc, [o[1] for o in outs]))
+            ex2 = PyExec(cmod, None, "", globals_=_globals())
+            d = ex2.call_function(PState(), fn, [calc])[0][2]
+            want = _sym(fc_unit_SI(u.replace("Angstrom", "angstrom"), U)) / _sym(fc_unit_SI(d["force_constants_unit"], U))
+            run.lemma(pref, "table", "conversion of %s to the unit of %s" % (u, calc), [], None, backend="poly",
+                      pairs=[(sp.srepr(_sym(rets[0][2])), sp.srepr(want))])
     run.assumptions.append("CODATA values of the fundamental constants are not checked; only the mutual consistency of the tables (symbolic)")
 
 
